@@ -1231,6 +1231,123 @@ func (t *tracer) finalNameReuse(g *gen, final enc.Name) {
 	}
 }
 
+// typed wraps a decoded signature and announces another signature type: used to find out, by behaviour, which type a
+// validator insists on.
+type typedSig struct {
+	ndn.Signature
+	t ndn.SigType
+}
+
+func (s typedSig) SigType() ndn.SigType { return s.t }
+
+// signerFacts observes every shipped signer as a live object — no source text is read: SigInfo() (announced type, key
+// locator, Interest fields, validity period), EstimateSize(), the length of a signature it produces, and — by signing a
+// packet, decoding it and offering it to the validator that takes this kind of key under every signature type code —
+// the type code that validator insists on.
+//   SFACT <name> <type> <est> <keyloc> <intfields> <validity> <validator> <vtype|none> <fits: signatures <= estimate>
+func signerFacts(g *gen, line func(string, ...any)) {
+	initKeys()
+	sp := spec.Spec{}
+	kn := enc.Name{enc.NewStringComponent(8, "k")}
+	key := []byte("0123456789abcdef")
+	for _, sf := range []struct {
+		name   string
+		forInt bool
+		sk     *signerKind
+		vname  string
+	}{
+		{"sha256Signer", false, &signerKind{kind: "sha256", signer: sec.NewSha256Signer()}, "Sha256Validate"},
+		{"sha256IntSigner", true, &signerKind{kind: "sha256int", signer: sec.NewSha256IntSigner(fakeTimer{g})}, "Sha256Validate"},
+		{"hmacSigner", false, &signerKind{kind: "hmac", signer: sec.NewHmacSigner(kn, key, true, time.Hour), key: key}, "HmacValidate"},
+		{"hmacIntSigner", true, &signerKind{kind: "hmacint", signer: sec.NewHmacIntSigner(key, fakeTimer{g}), key: key}, "HmacValidate"},
+		{"eccSigner", false, &signerKind{kind: "ecc", signer: sec.NewEccSigner(true, false, time.Hour, ecKeys[0], kn), ecPub: &ecKeys[0].PublicKey}, "EcdsaValidate"},
+		{"eccSigner/interest/P-256", true, &signerKind{kind: "ecc", signer: sec.NewEccSigner(false, true, time.Hour, ecKeys[0], kn), ecPub: &ecKeys[0].PublicKey}, "EcdsaValidate"},
+		{"eccSigner/interest/P-384", true, &signerKind{kind: "ecc", signer: sec.NewEccSigner(false, true, time.Hour, ecKeys[1], kn), ecPub: &ecKeys[1].PublicKey}, "EcdsaValidate"},
+		{"eccSigner/interest/P-521", true, &signerKind{kind: "ecc", signer: sec.NewEccSigner(false, true, time.Hour, ecKeys[2], kn), ecPub: &ecKeys[2].PublicKey}, "EcdsaValidate"},
+		{"rsaSigner", false, &signerKind{kind: "rsa", signer: sec.NewRsaSigner(true, false, time.Hour, rsaKey, kn), rsaPub: &rsaKey.PublicKey}, "RsaValidate"},
+	} {
+		func() {
+			defer func() {
+				if r := recover(); r != nil {
+					line("SFACT %s err panic", sf.name)
+				}
+			}()
+			c, err := sf.sk.signer.SigInfo()
+			if err != nil || c == nil {
+				line("SFACT %s err siginfo", sf.name)
+				return
+			}
+			b01 := func(x bool) int {
+				if x {
+					return 1
+				}
+				return 0
+			}
+			est := sf.sk.signer.EstimateSize()
+			// a packet signed by it, decoded
+			nm := enc.Name{enc.NewStringComponent(8, "facts")}
+			var wire enc.Wire
+			what := "data"
+			if sf.forInt {
+				what = "int"
+				res, err := sp.MakeInterest(nm, &ndn.InterestConfig{}, enc.Wire{[]byte{1, 2, 3}}, sf.sk.signer)
+				if err != nil {
+					line("SFACT %s err build", sf.name)
+					return
+				}
+				wire = res.Wire
+			} else {
+				res, err := sp.MakeData(nm, &ndn.DataConfig{}, enc.Wire{[]byte{1, 2, 3}}, sf.sk.signer)
+				if err != nil {
+					line("SFACT %s err build", sf.name)
+					return
+				}
+				wire = res.Wire
+			}
+			obs, sig, cov, _ := decode(what, enc.NewBufferReader(join(wire)))
+			if obs == "err" || obs == "panic" || sig == nil {
+				line("SFACT %s err decode", sf.name)
+				return
+			}
+			// which announced type does the validator of this key kind accept (signature value and covered bytes genuine)?
+			vtype := "none"
+			for t := 0; t <= 8; t++ {
+				if ok, have := sf.sk.validate(cov, typedSig{sig, ndn.SigType(t)}); have && ok {
+					if vtype != "none" {
+						vtype = "several"
+						break
+					}
+					vtype = strconv.Itoa(t)
+				}
+			}
+			// do the signatures it produces fit its estimate?  (16 signings: ECDSA lengths vary)
+			fits := uint(len(sig.SigValue())) <= est
+			for k := 0; k < 16; k++ {
+				if sv, err := sf.sk.signer.ComputeSigValue(cov); err != nil || uint(len(sv)) > est {
+					fits = false
+				}
+			}
+			line("SFACT %s %d %d %d %d %d %s %s %d", sf.name, int(c.Type), est, b01(c.KeyName != nil),
+				b01(c.Nonce != nil || c.SeqNum != nil || c.SigTime != nil), b01(c.NotBefore != nil || c.NotAfter != nil), sf.vname, vtype, b01(fits))
+		}()
+	}
+}
+
+// TestSignerFacts writes the observations alone (used by the C12 check to regenerate coq/Packet/GenSigners.v before the proofs run).
+func TestSignerFacts(t *testing.T) {
+	out := os.Getenv("VERIF_OUT")
+	if out == "" {
+		t.Skip("VERIF_OUT not set")
+	}
+	f, err := os.Create(out)
+	if err != nil {
+		t.Fatal(err)
+	}
+	defer f.Close()
+	g := &gen{r: rand.New(rand.NewSource(1))}
+	signerFacts(g, func(format string, a ...any) { fmt.Fprintf(f, format+"\n", a...) })
+}
+
 func (t *tracer) intCase(g *gen, id int) {
 	sp := spec.Spec{}
 	nm := g.name()
@@ -1445,28 +1562,8 @@ func TestTrace(t *testing.T) {
 	defer w.Flush()
 	tr := &tracer{w: w, quick: os.Getenv("VERIF_TIER") != "thorough", stats: map[string]int{}, tamper: map[string]int{}}
 	g := &gen{r: rand.New(rand.NewSource(seed))}
-	// facts of the shipped signers as the live objects report them (cross-checked against the translated table)
-	initKeys()
-	kn := enc.Name{enc.NewStringComponent(8, "k")}
-	for _, sf := range []struct {
-		name string
-		s    ndn.Signer
-	}{
-		{"sha256Signer", sec.NewSha256Signer()}, {"sha256IntSigner", sec.NewSha256IntSigner(fakeTimer{g})},
-		{"hmacSigner", sec.NewHmacSigner(kn, []byte("k"), false, 0)}, {"hmacIntSigner", sec.NewHmacIntSigner([]byte("k"), fakeTimer{g})},
-		{"eccSigner", sec.NewEccSigner(false, false, 0, ecKeys[0], kn)}, {"rsaSigner", sec.NewRsaSigner(false, false, 0, rsaKey, kn)},
-	} {
-		c, err := sf.s.SigInfo()
-		if err != nil || c == nil {
-			tr.line("SFACT %s err", sf.name)
-			continue
-		}
-		kl := 0
-		if c.KeyName != nil {
-			kl = 1
-		}
-		tr.line("SFACT %s %d %d %d", sf.name, int(c.Type), sf.s.EstimateSize(), kl)
-	}
+	// facts of the shipped signers, observed on the live objects (also produced alone by TestSignerFacts)
+	signerFacts(g, tr.line)
 	// corpus first: "RD <what> <B|W> <segs> ..." lines are re-executed as they are, "SEED <seed> <n>" re-generates n cases
 	if dir := os.Getenv("VERIF_CORPUS"); dir != "" {
 		ents, _ := os.ReadDir(dir)
